@@ -137,6 +137,57 @@ theorem response_not_setKeyspace (v : VerifiedName) (r : WireReply) (h : verifyU
 example : verifyUseResult ⟨"Ks1", false⟩ (.setKeyspace "ks1") = .ok () := by rfl
 example : verifyUseResult ⟨"Ks1", false⟩ (.setKeyspace "ks2") = .error .mismatch := by rfl
 
+/-! ### what a server makes of the statement: the flag decides WHICH keyspace is named -/
+
+/-- A server that has the named keyspace acknowledges the statement with the resolved name, and the driver's
+response check accepts that answer; a server that does not have it answers an error, which is reported. -/
+theorem server_answer_accepted_iff (existing : List String) (v : VerifiedName) :
+    verifyUseResult v (serverUse existing v) = .ok () ↔ existing.contains (resolveName v) = true := by
+  unfold serverUse
+  by_cases h : existing.contains (resolveName v) = true
+  · simp only [h, ↓reduceIte, iff_true]
+    rw [response_check_iff]
+    unfold resolveName
+    split
+    · rfl
+    · simp only [String.toList_ofList, List.map_map]
+      apply List.map_congr_left
+      intro c _
+      simp only [Function.comp]
+      unfold asciiLower
+      split
+      · rename_i hc
+        have : (Char.ofNat (c.toNat + 32)).toNat = c.toNat + 32 := by
+          have hv : (c.toNat + 32).isValidChar := by unfold Nat.isValidChar; omega
+          unfold Char.ofNat
+          rw [dif_pos hv]
+          unfold Char.ofNatAux Char.toNat
+          simp only [UInt32.toNat, BitVec.toNat_ofNatLT]
+        rw [this]
+        simp only [ite_eq_right_iff]
+        intro h2; omega
+      · rfl
+  · simp only [h, Bool.false_eq_true, ↓reduceIte, iff_false]
+    simp [verifyUseResult]
+
+/-- Quoting the name a server returned names exactly that keyspace again: this is why the session's follow-up
+after a user-issued `USE` (`handle_set_keyspace_response`, and the pager's copy of it) must pass
+`case_sensitive = true`. -/
+theorem followup_quoted_names_the_same_keyspace (v : VerifiedName) :
+    resolveName ⟨resolveName v, true⟩ = resolveName v := rfl
+
+/-- ... whereas the unquoted follow-up names the lower-cased twin whenever the resolved name has an upper-case
+letter: a different keyspace (example: `Ka` / `ka`). -/
+theorem followup_unquoted_names_the_lowercase_twin (v : VerifiedName) :
+    resolveName ⟨resolveName v, false⟩ = String.ofList ((resolveName v).toList.map asciiLower) := rfl
+
+example : resolveName ⟨"Ka", true⟩ = "Ka" ∧ resolveName ⟨"Ka", false⟩ = "ka" ∧
+    resolveName ⟨resolveName ⟨"Ka", true⟩, false⟩ = "ka" ∧ resolveName ⟨resolveName ⟨"Ka", true⟩, true⟩ = "Ka" := by
+  decide
+example : verifyUseResult ⟨"Ka", false⟩ (serverUse ["ka", "Ka"] ⟨"Ka", false⟩) = .ok () ∧
+    serverUse ["ka", "Ka"] ⟨"Ka", false⟩ = .setKeyspace "ka" ∧ serverUse ["Ka"] ⟨"Ka", false⟩ = .error :=
+  ⟨rfl, rfl, rfl⟩
+
 /-! ## B. `use_keyspace_result` -/
 
 /-- Ok iff at least one Ok and nothing but broken-connection errors besides. -/
@@ -217,6 +268,70 @@ theorem published_has_keyspace (perShard : Bool) (target : Nat) (ks0 : Option K)
         (p.net i).serverKs = some L.ks ∧ (p.net i).queue = [] := by
   intro p hov L hL hresp
   exact published_of_inv (reachable_inv perShard target ks0 evs) hov L hL hresp
+
+/-- **published_in_exactly_named_keyspace**. With a server that resolves statements as servers do
+(`resolveName`: quoted = exact, unquoted = folded to lower case), the conclusion of `published_has_keyspace` reads:
+every such connection is in EXACTLY the keyspace the newest call named - `resolveName` of its (name, flag) - not
+in a case twin of it. -/
+theorem published_in_exactly_named_keyspace (perShard : Bool) (target : Nat) (ks0 : Option VerifiedName)
+    (evs : List (Ev VerifiedName)) :
+    let p := run (Pool.init perShard target ks0) evs
+    p.overlap = false → ∀ L, p.latest = some L → (L.resp = some .ok ∨ L.resp = some (.err .broken)) →
+      ∀ i ∈ p.conns, (p.net i).broken = false → (p.net i).unclaimed = false →
+        (p.net i).serverKs.map resolveName = some (resolveName L.ks) := by
+  intro p hov L hL hresp i hi hb hm
+  rw [((published_has_keyspace perShard target ks0 evs hov L hL hresp).2 i hi hb hm).1]
+  rfl
+
+/-- **use_keyspace_walks_buckets**: the request's snapshot is the published connections bucket by bucket (shard
+0 first), each bucket in its own order - the order in which `PoolRefiller::use_keyspace` collects the results, hence
+the order that decides WHICH error a failing call reports when connections fail differently. -/
+theorem use_keyspace_walks_buckets (p : Pool K) (k : K) :
+    let q := step p (.useKs k)
+    ∃ L, q.latest = some L ∧ L.snapshot = p.byShard ∧ (∀ i, i ∈ L.snapshot ↔ i ∈ p.conns) ∧
+      L.snapshot.Pairwise (fun a b => (p.net a).shard ≤ (p.net b).shard) := by
+  refine ⟨_, rfl, rfl, fun i => mem_byShard p i, ?_⟩
+  simp only
+  unfold Pool.byShard
+  suffices h : ∀ (l acc : List Nat), acc.Pairwise (fun a b => (p.net a).shard ≤ (p.net b).shard) →
+      (l.foldl (fun acc i => insertByShard (fun j => (p.net j).shard) i acc) acc).Pairwise
+        (fun a b => (p.net a).shard ≤ (p.net b).shard) from h _ _ List.Pairwise.nil
+  intro l
+  induction l with
+  | nil => intro acc h; exact h
+  | cons x l ih =>
+    intro acc hacc
+    apply ih
+    -- inserting keeps the list ordered by shard
+    clear ih
+    induction acc with
+    | nil => simp [insertByShard]
+    | cons j acc ih2 =>
+      simp only [insertByShard]
+      rw [List.pairwise_cons] at hacc
+      split
+      · rename_i hlt
+        rw [List.pairwise_cons]
+        refine ⟨fun b hb => ?_, by rw [List.pairwise_cons]; exact hacc⟩
+        simp only [List.mem_cons] at hb
+        rcases hb with rfl | hb
+        · omega
+        · have := hacc.1 b hb; omega
+      · rename_i hge
+        rw [List.pairwise_cons]
+        refine ⟨fun b hb => ?_, ih2 hacc.2⟩
+        rcases (mem_insertByShard _ _ _ _).mp hb with rfl | hb
+        · omega
+        · exact hacc.1 b hb
+
+/-- the auditor's history: connection 0 lands on shard 1, connection 1 on shard 0; the `USE` fails differently on
+the two: the call reports the error of the SHARD-0 connection (connection 1), as the code does. -/
+private def evsOrder : List (Ev Nat) :=
+  [.refill, .opened 1 (some 2) none, .refill, .opened 0 (some 2) (some 0), .useKs 4, .taskSubmit 0 0, .taskSubmit 0 1,
+   .serve 0 .dbError, .serve 1 (.ackOther 9), .taskFinish 0]
+example : let p := run (Pool.init true 1 (none : Option Nat)) evsOrder
+    p.conns = [0, 1] ∧ (p.latest.map (·.snapshot)) = some [1, 0] ∧
+    (p.latest.map (·.resp)) = some (some (.err .mismatch)) := by decide
 
 /-- Before any use-keyspace request (a pool created with the session's keyspace, e.g. for a newly
 discovered node): every published live connection (no user-issued `USE` on it) has the pool's initial keyspace. -/
@@ -507,7 +622,7 @@ request pending: by `publish_only_with_current_keyspace` / `published_has_initia
 a connection without it. -/
 theorem new_nodes_inherit (perShard : Bool) (target : Nat) (evs : List (CEv K)) (ps : Bool) (tg : Nat) :
     let c := crun (Cluster.init perShard target : Cluster K) evs
-    let c' := cstep c (.addNode ps tg)
+    let c' := cstep c (.addNode ps tg false)
     c.usedKs = c.fanouts.head?.map (·.ks) ∧ c'.known = c.known ++ [c.nNodes] ∧
     c'.pools c.nNodes = Pool.init ps tg c.usedKs ∧ (c'.pools c.nNodes).currentKs = c.usedKs ∧
     (c'.pools c.nNodes).tasks = [] := by
@@ -570,7 +685,7 @@ theorem cluster_no_pool_overlap (perShard : Bool) (target : Nat) (evs : List (CE
     exact hs.2.1 n tid hl
 
 private def cevs : List (CEv Nat) :=
-  [.addNode false 1, .pool 0 .refill, .pool 0 (.opened 0 none none), .useKs 5, .addNode false 1,
+  [.addNode false 1 false, .pool 0 .refill, .pool 0 (.opened 0 none none), .useKs 5, .addNode false 1 false,
    .deliver 0 0, .pool 0 (.taskSubmit 0 0), .pool 0 (.serve 0 .ack), .pool 0 (.taskFinish 0), .fanoutFinish 0,
    .pool 1 .refill, .pool 1 (.opened 0 none none), .pool 1 (.ksSet 0 .ack)]
 
@@ -582,7 +697,7 @@ example : let c := crun (Cluster.init false 1 : Cluster Nat) cevs
 /-- The cluster-level ghost is not sticky either: two overlapping `Session::use_keyspace` calls (flag set, the
 theorem silent), then, once both are answered, a third one: flag clear again, and the theorem applies. -/
 private def cevsRecover : List (CEv Nat) :=
-  [.addNode false 1, .pool 0 .refill, .pool 0 (.opened 0 none none), .useKs 1, .useKs 2, .deliver 1 0, .deliver 0 0,
+  [.addNode false 1 false, .pool 0 .refill, .pool 0 (.opened 0 none none), .useKs 1, .useKs 2, .deliver 1 0, .deliver 0 0,
    .pool 0 (.taskSubmit 0 0), .pool 0 (.taskSubmit 1 0), .pool 0 (.serve 0 .ack), .pool 0 (.serve 0 .ack),
    .pool 0 (.taskFinish 0), .pool 0 (.taskFinish 1), .fanoutFinish 0, .fanoutFinish 1]
 example : let c := crun (Cluster.init false 1 : Cluster Nat) cevsRecover
@@ -619,12 +734,103 @@ theorem timeout_on_any_node_fails_the_call (perShard : Bool) (target : Nat) (evs
 /-- non-vacuity: two nodes; node 1 does not answer the `USE` (its pool task times out, its connection stays
 published in no keyspace), node 0 acknowledges: the fan-out is answered with the timeout error, not Ok. -/
 private def cevsTimeout : List (CEv Nat) :=
-  [.addNode false 1, .addNode false 1, .pool 0 .refill, .pool 0 (.opened 0 none none), .pool 1 .refill,
+  [.addNode false 1 false, .addNode false 1 false, .pool 0 .refill, .pool 0 (.opened 0 none none), .pool 1 .refill,
    .pool 1 (.opened 0 none none), .useKs 5, .deliver 0 0, .deliver 0 1, .pool 0 (.taskSubmit 0 0),
    .pool 1 (.taskSubmit 0 0), .pool 0 (.serve 0 .ack), .pool 0 (.taskFinish 0), .pool 1 (.taskTimeout 0), .fanoutFinish 0]
 example : let c := crun (Cluster.init false 1 : Cluster Nat) cevsTimeout
     c.fanouts.map (·.resp) = [some (.err .timeout)] ∧ (c.pools 1).conns = [0] ∧
     ((c.pools 1).net 0).serverKs = none ∧ ((c.pools 0).net 0).serverKs = some 5 := by decide
+
+/-- **filtered_nodes_have_no_connections**: a node the host filter rejects has no pool (`Node::use_keyspace`
+answers Ok for it at once, node.rs:305-313): nothing ever happens there, in particular no request can be handed a
+connection to it. A fan-out may therefore be answered Ok although every REAL pool answered with a
+broken-connection error - i.e. with no connection having acknowledged the keyspace; this does not contradict the
+property: those connections are broken (they are leaving their pools), every pool has recorded the keyspace
+(`new_nodes_inherit`, `publish_only_with_current_keyspace`), so whatever is published afterwards carries it. -/
+theorem filtered_nodes_have_no_connections (perShard : Bool) (target : Nat) (evs : List (CEv K)) :
+    let c := crun (Cluster.init perShard target : Cluster K) evs
+    ∀ n ∈ c.filtered, (c.pools n).conns = [] ∧ (c.pools n).setting = [] ∧ (c.pools n).opening = 0 := by
+  intro c
+  suffices h : ∀ (c0 : Cluster K) (es : List (CEv K)),
+      (∀ n ∈ c0.filtered, n < c0.nNodes ∧ (c0.pools n).conns = [] ∧ (c0.pools n).setting = [] ∧ (c0.pools n).opening = 0) →
+      ∀ n ∈ (crun c0 es).filtered, n < (crun c0 es).nNodes ∧ ((crun c0 es).pools n).conns = [] ∧
+        ((crun c0 es).pools n).setting = [] ∧ ((crun c0 es).pools n).opening = 0 from
+    fun n hn => (h _ evs (by intro n hn; simp [Cluster.init] at hn) n hn).2
+  intro c0 es
+  unfold crun
+  induction es generalizing c0 with
+  | nil => intro h; exact h
+  | cons e es ih =>
+    intro h0
+    apply ih
+    cases e with
+    | useKs k => exact h0
+    | deliver fid m =>
+      simp only [cstep]
+      split
+      · exact h0
+      · split
+        · exact h0
+        · intro n hn
+          have := h0 n hn
+          simp only [setPool]
+          split
+          · rename_i hnm; subst hnm; simp only [step]; exact this
+          · exact this
+    | pool m e =>
+      simp only [cstep]
+      split
+      · exact h0
+      · rename_i hcond
+        simp only [Bool.or_eq_true, decide_eq_true_eq, not_or, Bool.not_eq_true, List.contains_eq_mem,
+          decide_eq_false_iff_not] at hcond
+        intro n hn
+        have := h0 n hn
+        simp only [setPool]
+        split
+        · rename_i hnm; subst hnm; exact absurd hn hcond.2
+        · exact this
+    | addNode ps tg filt =>
+      simp only [cstep]
+      intro n hn
+      have hold : ∀ m ∈ c0.filtered, m < c0.nNodes + 1 ∧ (setPool c0.pools c0.nNodes (Pool.init ps tg c0.usedKs) m).conns = [] ∧
+          (setPool c0.pools c0.nNodes (Pool.init ps tg c0.usedKs) m).setting = [] ∧
+          (setPool c0.pools c0.nNodes (Pool.init ps tg c0.usedKs) m).opening = 0 := by
+        intro m hm
+        have := h0 m hm
+        simp only [setPool]
+        rw [if_neg (by omega)]
+        exact ⟨by omega, this.2⟩
+      cases filt with
+      | false => simp only [Bool.false_eq_true, ↓reduceIte] at hn; exact hold n hn
+      | true =>
+        simp only [↓reduceIte, List.mem_cons] at hn
+        rcases hn with rfl | hn
+        · simp [setPool, Pool.init]
+        · exact hold n hn
+    | removeNode m => exact h0
+    | fanoutFinish fid =>
+      simp only [cstep]
+      split
+      · exact h0
+      · split <;> exact h0
+
+/-- non-vacuity, and the history asked for: node 0 has a pool whose only connection breaks just before the `USE`
+is written (the pool answers with a broken-connection error), node 1 is host-filtered (answers Ok at once): the
+fan-out is answered Ok with NO connection having acknowledged keyspace 5. The refilled connection of node 0 is
+published with keyspace 5. -/
+private def cevsFiltered : List (CEv Nat) :=
+  [.addNode false 1 false, .addNode false 1 true, .pool 0 .refill, .pool 0 (.opened 0 none none),
+   .pool 1 .refill, .useKs 5, .deliver 0 0, .deliver 0 1, .pool 0 (.breakConn 0), .pool 0 (.taskSubmit 0 0),
+   .pool 0 (.taskFinish 0), .fanoutFinish 0]
+example : let c := crun (Cluster.init false 1 : Cluster Nat) cevsFiltered
+    c.filtered = [1] ∧ (c.pools 1).opening = 0 ∧ c.fanouts.map (·.resp) = [some .ok] ∧
+    (c.pools 0).tasks.map (·.resp) = [some (.err .broken)] ∧ (c.pools 1).tasks.map (·.resp) = [some .ok] ∧
+    ((c.pools 0).net 0).acked = [] := by decide
+private def cevsFiltered2 : List (CEv Nat) :=
+  cevsFiltered ++ [.pool 0 (.connError 0), .pool 0 .refill, .pool 0 (.opened 0 none none), .pool 0 (.ksSet 1 .ack)]
+example : let c := crun (Cluster.init false 1 : Cluster Nat) cevsFiltered2
+    (c.pools 0).conns = [1] ∧ ((c.pools 0).net 1).serverKs = some 5 := by decide
 
 /-! ## E. The session layer: `Session::use_keyspace` as the code has it (store the name, validate, fan out)
 
@@ -739,7 +945,7 @@ with the SAME name gets its own fan-out (id 1), its own pool task (id 1), its ow
 name passed twice is rejected twice. -/
 private def ksName : VerifiedName := ⟨"ks", false⟩
 private def sevs : List SEv :=
-  [.cluster (.addNode false 1), .cluster (.pool 0 .refill), .cluster (.pool 0 (.opened 0 none none)),
+  [.cluster (.addNode false 1 false), .cluster (.pool 0 .refill), .cluster (.pool 0 (.opened 0 none none)),
    .call "ks" false, .cluster (.deliver 0 0), .cluster (.pool 0 (.taskSubmit 0 0)), .cluster (.pool 0 (.serve 0 .dbError)),
    .cluster (.pool 0 (.taskFinish 0)), .cluster (.fanoutFinish 0),
    .call "bad name" false, .call "bad name" false,
